@@ -25,6 +25,7 @@ LEVEL_TEXT += ' Added clause: the memo key tells rules apart whose names differ 
 TECHNIQUE += '; type of the container bound to _results (no evicting __setitem__)'
 LEVEL_TEXT += ' Added clause: seeds and guards of active left recursion are never evicted.'
 TECHNIQUE += '; ParserConfig.__post_init__ interpreted over setting combinations: tracing switches change no other setting'
+TECHNIQUE += '; call() and rule_call() interpreted together: a failure is offered to set_furthest_exception whether computed or replayed from the memo (R11)'
 LEVEL_TEXT += ' Added clause: tracing cannot switch memoization or left recursion.'
 LEVEL_NOTE = ('Trusted: dict semantics of BoundedDict eviction (only deletes); an evicted or pruned entry only makes a '
               'rule body run again because the sole reader returns/raises the stored outcome unchanged.')
